@@ -227,17 +227,22 @@ func (f *file) ReadBlobAt(length int, off int64) (b blob.Blob, n int, err error)
 	if f.fileData == nil {
 		return nil, 0, f.closedErr("read")
 	}
-	if off >= int64(f.Size()) {
+	if f.Mode().IsDir() {
+		// directories have no contents, keep reporting an immediate EOF
 		return nil, 0, io.EOF
 	}
-	max := int64(f.Size())
-	end := off + int64(length)
-	if end > max {
-		end = max
-	}
+	// load the contents first, so the size is the file's current size and not the size when it was opened
 	data, err := f.Data()
 	if err != nil {
 		return nil, 0, err
+	}
+	max := int64(data.Len())
+	if off >= max {
+		return nil, 0, io.EOF
+	}
+	end := off + int64(length)
+	if end > max {
+		end = max
 	}
 	b, err = blob.View(data, off, end)
 	if err != nil {
@@ -261,7 +266,16 @@ func (f *file) Seek(offset int64, whence int) (int64, error) {
 	case io.SeekCurrent:
 		newOffset += offset
 	case io.SeekEnd:
-		newOffset = int64(f.Size()) + offset
+		size := int64(f.Size())
+		if !f.Mode().IsDir() {
+			// load the contents, so the size is the file's current size and not the size when it was opened
+			data, err := f.Data()
+			if err != nil {
+				return 0, &hackpadfs.PathError{Op: "seek", Path: f.path, Err: err}
+			}
+			size = int64(data.Len())
+		}
+		newOffset = size + offset
 	default:
 		return 0, &hackpadfs.PathError{Op: "seek", Path: f.path, Err: hackpadfs.ErrInvalid}
 	}
@@ -298,8 +312,14 @@ func (f *file) writeBlobAt(op string, p blob.Blob, off int64) (n int, err error)
 	if f.Mode().IsDir() {
 		return 0, &hackpadfs.PathError{Op: op, Path: f.path, Err: hackpadfs.ErrIsDir}
 	}
+	// load the contents first, so the size is the file's current size and not the size when it was opened
+	data, err := f.Data()
+	if err != nil {
+		return 0, &hackpadfs.PathError{Op: op, Path: f.path, Err: err}
+	}
+	size := int64(data.Len())
 	if f.flag&hackpadfs.FlagAppend != 0 {
-		off = int64(f.Size())
+		off = size
 	}
 	if off < 0 {
 		// reject before growing the file, a failed write must leave the contents unchanged
@@ -307,19 +327,11 @@ func (f *file) writeBlobAt(op string, p blob.Blob, off int64) (n int, err error)
 	}
 
 	endIndex := off + int64(p.Len())
-	if int64(f.Size()) < endIndex {
-		data, err := f.Data()
+	if size < endIndex {
+		err = blob.Grow(data, endIndex-size)
 		if err != nil {
 			return 0, &hackpadfs.PathError{Op: op, Path: f.path, Err: err}
 		}
-		err = blob.Grow(data, endIndex-int64(f.Size()))
-		if err != nil {
-			return 0, &hackpadfs.PathError{Op: op, Path: f.path, Err: err}
-		}
-	}
-	data, err := f.Data()
-	if err != nil {
-		return 0, &hackpadfs.PathError{Op: op, Path: f.path, Err: err}
 	}
 	n, err = blob.Set(data, p, off)
 	if err != nil {
@@ -346,26 +358,24 @@ func (f *file) Truncate(size int64) error {
 	if f.Mode().IsDir() {
 		return &hackpadfs.PathError{Op: "truncate", Path: f.path, Err: hackpadfs.ErrIsDir}
 	}
-	length := int64(f.Size())
-	switch {
-	case size < 0:
+	if size < 0 {
 		return &hackpadfs.PathError{Op: "truncate", Path: f.path, Err: hackpadfs.ErrInvalid}
+	}
+	// load the contents first, so the length is the file's current size and not the size when it was opened
+	data, err := f.Data()
+	if err != nil {
+		return &hackpadfs.PathError{Op: "truncate", Path: f.path, Err: err}
+	}
+	length := int64(data.Len())
+	switch {
 	case size == length:
 		return nil
 	case size > length:
-		data, err := f.Data()
-		if err != nil {
-			return &hackpadfs.PathError{Op: "truncate", Path: f.path, Err: err}
-		}
 		err = blob.Grow(data, size-length)
 		if err != nil {
 			return &hackpadfs.PathError{Op: "truncate", Path: f.path, Err: err}
 		}
 	case size < length:
-		data, err := f.Data()
-		if err != nil {
-			return &hackpadfs.PathError{Op: "truncate", Path: f.path, Err: err}
-		}
 		err = blob.Truncate(data, size)
 		if err != nil {
 			return &hackpadfs.PathError{Op: "truncate", Path: f.path, Err: err}
